@@ -321,3 +321,31 @@ Proof.
   unfold iv_within. rewrite forallb_forall. intros H Ha. specialize (H a Ha).
   rewrite orb_true_iff in H. destruct H as [H|H]; [left; apply N.eqb_eq; exact H|right; apply N.leb_le; exact H].
 Qed.
+
+Lemma tiling_extend_split cl n h cnt took :
+  took <= cnt -> tiling cl n h ->
+  tiling cl (n + cnt) (((if took =? 0 then [] else [(n, took)]) ++ [(n + took, cnt - took)]) ++ h).
+Proof.
+  intros Ht T. destruct (N.eqb_spec took 0) as [->|Hz].
+  - cbn [app]. rewrite N.add_0_r, N.sub_0_r. apply tiling_extend. exact T.
+  - cbn [app]. replace (n + cnt) with ((n + took) + (cnt - took)) by lia.
+    eapply tiling_perm; [apply perm_swap|].
+    apply tiling_extend with (n := n + took).
+    apply tiling_extend. exact T.
+Qed.
+
+
+(** the ledger split of a chunk: what the caller took, and what was destroyed when it dropped the rest *)
+Definition led_split (b took cnt : N) : list iv :=
+  (if took =? 0 then [] else [(b, took)]) ++ (if 0 <? cnt - took then [(b + took, cnt - took)] else []).
+
+Lemma tiling_extend_led n h cnt took :
+  took <= cnt -> tiling true n h -> tiling true (n + cnt) (led_split n took cnt ++ h).
+Proof.
+  intros Ht T. unfold led_split. destruct (N.ltb_spec 0 (cnt - took)) as [Hp|Hp].
+  - apply tiling_extend_split; assumption.
+  - assert (took = cnt) as -> by lia. destruct (N.eqb_spec cnt 0) as [->|Hz]; cbn [app].
+    + rewrite N.add_0_r. exact T.
+    + apply tiling_extend. exact T.
+Qed.
+
